@@ -72,7 +72,7 @@ def body_dask(case, ctx):
         near = D[:, tid] <= md
         cross = bool((near & (blk[:, None] != blk[tid][None, :])).any())
     r.nt = cross
-    r.label("func=" + case["func"], "metric=" + metric, "sched=" + case.get("scheduler", "synchronous"),
+    r.label("dtype=" + case["raster"]["dtype"], "func=" + case["func"], "metric=" + metric, "sched=" + case.get("scheduler", "synchronous"),
             "path=" + ("single_block" if single_block else "halo"))
     if sx != sy:
         r.label("nonsquare_cells")
@@ -143,7 +143,7 @@ def dask_cases(draw, max_side):
         y = draw(S.axis_coords(h, steps=(1, 0.5, 2, 0.25, 3, 0.1, 1.1, 30.1, 0.3), offsets=(0, -7.5, 100)))
         x = draw(S.axis_coords(w, steps=(1, 0.5, 2, 0.25, 3, 0.1, 1.1, 30.1, 0.7), offsets=(0, 10.25)))
         sy, sx = y["step"], x["step"]
-    dtype = draw(st.sampled_from(["float64", "float64", "float32"]))
+    dtype = draw(st.sampled_from(["float64", "float64", "float32", "int32", "int64", "uint8", "int16"]))
     dens = draw(st.sampled_from([3, 6, 12, 25]))
     vals = [v * 0.5 for v in range(1, 20)]
     elem = st.one_of(*([st.just(0)] * dens + [st.sampled_from(["nan", 0, 0])] + [st.sampled_from(vals)]))
@@ -183,6 +183,10 @@ def dask_cases(draw, max_side):
             # keep the halo inside the raster on both axes (stated domain)
             while int(md / sy + 0.5) > h or int(md / sx + 0.5) > w:
                 md *= 0.5
+    if not dtype.startswith("float"):
+        # integer rasters (land-cover codes): same layout with the values doubled to integers, NaN cells become background
+        flat = [0 if isinstance(v, str) else int(round(v * 2)) for v in flat]
+        tv = [int(round(t * 2)) for t in tv]
     return {"sub": "dask", "raster": {"dtype": dtype, "data": [flat[i * w:(i + 1) * w] for i in range(h)]}, "y": y, "x": x,
             "metric": metric, "target_values": tv, "max_distance": md, "chunks": [draw(S.chunking(h)), draw(S.chunking(w))],
             "scheduler": draw(st.sampled_from(SCHEDS)), "func": draw(st.sampled_from(FUNCS)),
@@ -271,6 +275,25 @@ FIXED = {
 }
 
 
+DT_RASTER = [[0, 0, 0, 0, 3], [0, 0, 0, 0, 0], [0, 2, 0, 0, 0], [0, 0, 0, 0, 0], [0, 0, 0, 7, 0], [5, 0, 0, 0, 0]]
+
+
+def dtype_matrix_cases(dtypes):
+    """Raster dtype x output mode x target selection x halo depth x chunking on one fixed 6x5 class raster (default targets = every
+    non-zero cell; the halo of a border chunk lies outside the raster, where an integer raster cannot hold the NaN fill)."""
+    k = 0
+    for dt in dtypes:
+        for fi, func in enumerate(FUNCS):
+            for tv in ([], [2, 7]):
+                for md in (1.0, 2.5):
+                    for chunks in ([[3, 3], [2, 3]], [[6], [1, 2, 2]], [[2, 2, 2], [5]]):
+                        k += 1
+                        yield {"sub": "dask", "raster": {"dtype": dt, "data": DT_RASTER}, "y": {"start": 0, "step": 1, "n": 6, "desc": bool(k % 2)},
+                               "x": {"start": 0, "step": 1, "n": 5, "desc": False}, "metric": "EUCLIDEAN" if k % 3 else "MANHATTAN",
+                               "target_values": tv, "max_distance": md, "chunks": chunks, "scheduler": "synchronous", "func": func, "res": None,
+                               "enum": ["dtype_matrix", dt, func, tv, md, chunks]}
+
+
 def enum_cases(n, variant, lo, hi):
     comps = list(S.compositions(n))
     pairs = [(a, b) for a in comps for b in comps]
@@ -296,6 +319,10 @@ def shards(tier):
         out.append(("elongated#%d" % i, lambda ctx: drive_hypothesis(ctx, body_dask, elongated_cases(), per if tier == "quick" else 100, shrink=(tier == "thorough"))))
     for i in range(3 if tier == "quick" else 4):
         out.append(("edge#%d" % i, lambda ctx: drive_hypothesis(ctx, body_dask, edge_cases(), per if tier == "quick" else 100, shrink=(tier == "thorough"))))
+    dts = ["int32", "int64", "uint8", "float32"] if tier == "quick" else ["int8", "int16", "int32", "int64", "uint8", "uint16", "uint32", "uint64", "float32", "float64"]
+    for dt in dts:
+        out.append(("dtype_matrix_%s" % dt, lambda ctx, dt=dt: drive_enum(ctx, body_dask, dtype_matrix_cases([dt]),
+                                                                         space="raster dtype %s x 3 functions x 2 target selections x 2 halo depths x 3 chunkings" % dt, size=36)))
     if tier == "quick":
         plan = [(3, 0, 1), (3, 1, 1), (4, 0, 3)]
     else:
@@ -310,7 +337,7 @@ def shards(tier):
 
 
 LEVEL_TEXT = ("Differential search (Dask vs NumPy backend) over chunk compositions, max_distance values placed around halo boundaries, non-square cells, "
-              "metrics, schedulers and the three output modes; plus every chunk-composition product of fixed 3x3/4x4 (quick) and 5x5 (thorough) rasters.")
+              "metrics, schedulers, raster dtypes (a designed dtype x function x target-selection x halo x chunking matrix) and the three output modes; plus every chunk-composition product of fixed 3x3/4x4 (quick) and 5x5 (thorough) rasters.")
 LEVEL_NOTE = ("Sampled outside the enumerated chunk products; each call costs ~1.5 s (closure re-JIT), so case counts are hundreds (quick) to thousands (thorough); "
               "the independent validity oracle of C06 covers defects common to both backends.")
 TECHNIQUE = "differential property-based testing (Dask chunked vs NumPy whole-raster) with exhaustive small chunk-composition products"
